@@ -1,6 +1,6 @@
 (** * C05: entry points for the unit correspondence check (float instance). *)
 From Coq Require Import ZArith List Floats Bool.
-From Celer Require Import Base.Num Base.NumF Base.Vec3 C01.LedgerModel C01.Run C05.StepModel.
+From Celer Require Import Base.Num Base.NumF Base.Vec3 C01.LedgerModel C01.Run C05.StepModel C05.StatusCheck C05.Boundary.
 Import ListNotations.
 
 Definition blank (st : status) (step : float) (post : paction) (E : float) (mfp time : float) : sim float :=
@@ -67,3 +67,36 @@ Definition run_physlimit (stopped : bool) (mfp xs : float) (has_eloss : bool)
            (eloss_step fixed : float) (no_processes : bool) :=
   let '(st, a) := calc_physics_step_limit stopped mfp xs has_eloss eloss_step fixed no_processes in
   (st, paction_code a).
+
+(** StatusCheckExecutor: [tbl] = (action id, StepActionOrder or 14 = implicit) of the real
+    registry, ids < 0 = invalid ActionId; result = code of the first failing condition *)
+Definition order_of_Z (z : Z) : option sorder :=
+  match z with
+  | 0 => Some OGenerate | 1 => Some OStart | 2 => Some OUserStart | 3 => Some OSortStart
+  | 4 => Some OPre | 5 => Some OUserPre | 6 => Some OSortPre | 7 => Some OAlong
+  | 8 => Some OSortAlong | 9 => Some OPrePost | 10 => Some OSortPrePost | 11 => Some OPost
+  | 12 => Some OUserPost | 13 => Some OEnd | _ => None
+  end%Z.
+Definition cfail_code (c : cfail) : Z :=
+  match c with
+  | CPass => 0 | CReverted => 1 | CInitializing => 2 | CMissingPost => 3
+  | CMissingAlong => 4 | CAlongChanged => 5 | COutOfOrder => 6
+  end%Z.
+Definition run_statuscheck (tbl : list (Z * Z)) (order : Z) (ps pp pa : Z) (cs : Z) (inf : bool)
+           (cp ca : Z) : Z :=
+  let orders := fun id : nat =>
+    match find (fun p => Z.eqb (fst p) (Z.of_nat id)) tbl with
+    | Some (_, o) => order_of_Z o
+    | None => None
+    end in
+  let oid := fun z : Z => if (z <? 0)%Z then None else Some (Z.to_nat z) in
+  match order_of_Z order with
+  | Some o => cfail_code (status_check orders o (mkCV (status_of ps) false (oid pp) (oid pa))
+                                       (mkCV (status_of cs) inf (oid cp) (oid ca)))
+  | None => (-1)%Z
+  end.
+
+(** CoreTrackView::apply_errored on a slot with the given status / post-step action class *)
+Definition run_errored (st : Z) (post : Z) (step : float) :=
+  let s := apply_errored (blank (status_of st) step (paction_of post) 1%float 1%float 0%float) in
+  (status_code (mstat s), paction_code (mpost s), mstep s).
